@@ -38,7 +38,7 @@ def run(ctx):
                        "absent types, too few names, T=*S, non-struct T, foci inside pointer-embedded structs) and Reflector Gett/Putt calls with foreign dynamic values; "
                        "non-trivial = every request except the positive controls; distinct by (shape s-expression, request)")
     ctx.assumptions += ["gc/amd64 struct layout and reflect's field description are modelled (Model/Layout), validated against the compiler on every generated shape",
-                        "type identity is equality of canonical GoType descriptions (the generator never prints two distinct types identically)",
+                        "type identity (String()== && AssignableTo) is equality of GoType descriptions whose defined types carry import path + name; a fraction of the shapes lists distinct types that reflect prints identically (same-named types of harness/pa/v1, pb/v1, pc/v1 and composites of them; no interface/channel kinds) - see distribution.colliding_types",
                         "variadic attr has cap == len (explicit arguments), so attr[0:N] panics exactly when fewer than N names are given",
                         "the model is faithful to today's code: derive_ok_or_panic holds only as _partial; the remaining defect class (focus inside a pointer-embedded struct) is proved present in the model and reported as known finding when reproduced; a pointer container must panic (F6 repaired)"]
     S.apply_replay(ctx)
